@@ -124,3 +124,63 @@ func c03Contract(ctx *Ctx, i int, drv int, rng *rand.Rand) {
 	ctx.Count(fmt.Sprintf("contract-delta:%d", delta))
 	ctx.Emit(Case{I: i, Kind: "contract-threshold-" + driverNames[drv], Desc: map[string]interface{}{"minimum": min.String(), "deposit": deposit.String(), "charge": charge, "steps": log}, Monitor: mon})
 }
+
+// c03Legacy: the deprecated vipnode_client endpoint is a registration like vipnode_connect: a
+// light client below the minimum is refused every time it is used, also right after an earlier
+// refusal, and also when the balance fell below the minimum after an accepted registration.
+func c03Legacy(ctx *Ctx, i int, drv int, rng *rand.Rand) {
+	min := []string{"1", "1000", "1000000"}[rng.Intn(3)]
+	w := newWorld(worldCfg{Drv: drv, Price: "1", IntervalNs: 1, Settle: true, Min: strp(min)})
+	defer w.Close()
+	w.aliasAll()
+	var mon []string
+	var log []string
+	w.applyPOp(&POp{Op: "connect", Node: "h1", Host: true, Kind: "geth"})
+	legacy := func() error {
+		req := pool.ClientRequest{Kind: "geth", NumHosts: 1}
+		nonce := w.nextNonce()
+		sig := w.sign(keyFor("c1"), "vipnode_client", nodeIDOf("c1"), nonce, req)
+		cctx, cancel := context.WithTimeout(context.Background(), 8*time.Second)
+		defer cancel()
+		_, err := w.pool.Client(cctx, sig, nodeIDOf("c1"), nonce, req)
+		return err
+	}
+	m, _ := new(big.Int).SetString(min, 10)
+	spendable := func() *big.Int {
+		b, err := w.bstore.GetNodeBalance(store.NodeID(nodeIDOf("c1")))
+		if err != nil {
+			return new(big.Int)
+		}
+		return new(big.Int).Add(&b.Credit, &b.Deposit)
+	}
+	check := func(what string) {
+		w.takeCalls()
+		sp := spendable()
+		err := legacy()
+		_, low := err.(balance.LowBalanceError)
+		log = append(log, fmt.Sprintf("%s: spendable %s, minimum %s: %v", what, sp, m, err))
+		if (sp.Cmp(m) < 0) != low {
+			mon = append(mon, fmt.Sprintf("c03-legacy-client-threshold: %s: vipnode_client by a light client with spendable balance %s, minimum %s: refused=%v (%v)", what, sp, m, low, err))
+		}
+		if low {
+			for _, c := range w.takeCalls() {
+				if c.Method == "whitelist" {
+					mon = append(mon, fmt.Sprintf("c03-legacy-client-threshold: %s: the refused client was nevertheless whitelisted on host %s", what, c.Host))
+				}
+			}
+		}
+	}
+	check("first use, no balance")
+	check("again right away")
+	check("a third time")
+	// fund the wallet to exactly the minimum plus a little, register, then get billed below it
+	w.applyPOp(&POp{Op: "addnode", Wallet: "w1", Node: "c1"})
+	extra := int64(1 + rng.Intn(40))
+	w.applyPOp(&POp{Op: "deposit", Wallet: "w1", Amount: new(big.Int).Add(m, big.NewInt(extra)).String()})
+	check("funded above the minimum")
+	w.applyPOp(&POp{Op: "update", Node: "c1", Peers: []string{"h1"}, Elapsed: 0})
+	w.applyPOp(&POp{Op: "update", Node: "c1", Peers: []string{"h1"}, Elapsed: extra + 1 + int64(rng.Intn(5))})
+	check("after a keep-alive billed it below the minimum")
+	check("and once more")
+	ctx.Emit(Case{I: i, Kind: "legacy-client-" + driverNames[drv], Desc: map[string]interface{}{"minimum": min, "steps": log}, Monitor: mon})
+}
